@@ -1,7 +1,66 @@
-(* C13 -- placeholder; theorems are added from proofs/ *)
-Require Import Coq.Lists.List Coq.NArith.NArith.
-From Mustache Require Import Res Manager.
+(* C13 -- declared component dependencies always hold. Statements only.
+   Model: Manager.extra_components / add_dependency / get_arch (entity_manager.cpp:26-31, 118-123, 141-160).
+   Specification: MgrSpec.closure, the least set containing the requested components and closed under the declarations. *)
+Require Import Coq.Lists.List Coq.NArith.NArith Coq.ZArith.ZArith Coq.micromega.Lia Coq.Bool.Bool.
+From Mustache Require Import Res Manager Palette MgrSpec Refine.
+From Mustache.proofs Require Import ClosureProofs.
 Import ListNotations.
-Example C13_placeholder : mitems 5%N = [0; 2].
-Proof. vm_compute. reflexivity. Qed.
-Print Assumptions C13_placeholder.
+
+(* for ANY dependency table (chains, diamonds, cycles): whenever the code's fixpoint loop returns, the requested set
+   together with the extra components is closed under the dependencies and is the LEAST closed superset of the request *)
+Theorem C13_closure_is_least_fixpoint : forall s m r,
+  extra_components s m = Ok r ->
+  closed (deps s) (munion m r) /\ sub m (munion m r) /\
+  forall x, closed (deps s) x -> sub m x -> sub (munion m r) x.
+Proof. exact extra_components_least_fixpoint. Qed.
+Print Assumptions C13_closure_is_least_fixpoint.
+
+(* the specification's closure is the same notion *)
+Theorem C13_spec_closure_is_least_fixpoint : forall d m,
+  dep_step d (closure d m) = closure d m ->
+  closed_list d (closure d m) /\ sub m (closure d m) /\ forall x, closed_list d x -> sub m x -> sub (closure d m) x.
+Proof. exact spec_closure_least_fixpoint. Qed.
+Print Assumptions C13_spec_closure_is_least_fixpoint.
+
+(* every archetype lookup widens the requested set by the closure: the archetype found or created for m has mask m + extras *)
+Theorem C13_archetype_mask_is_closed : forall s m sh s' ai,
+  get_arch s m sh = Ok (s', ai) ->
+  exists r a, extra_components s m = Ok r /\ nth_error (archs s') ai = Some a /\ am_mask a = munion m r.
+Proof.
+  intros s m sh s' ai H. unfold get_arch, bind in H.
+  destruct (extra_components s m) as [r|] eqn:E; [|discriminate]. exists r.
+  destruct (find_arch (archs s) (munion m r) sh 0) as [i|] eqn:Ef.
+  - inversion H; subst. clear H.
+    assert (G : forall l k i, find_arch l (munion m r) sh k = Some i -> exists a, nth_error l (i - k) = Some a /\ am_mask a = munion m r /\ k <= i).
+    { induction l as [|a t IH]; intros k i Hf; simpl in Hf; [discriminate|].
+      destruct ((am_mask a =? munion m r)%N && si_eqb (am_shared a) sh) eqn:Eb.
+      - inversion Hf; subst. exists a. rewrite PeanoNat.Nat.sub_diag. apply andb_prop in Eb. destruct Eb as (Eb & _). apply N.eqb_eq in Eb. auto.
+      - destruct (IH _ _ Hf) as (a' & Hn & Hm & Hle). exists a'. split; [|split; [assumption|lia]].
+        replace (i - k) with (S (i - S k)) by lia. exact Hn. }
+    destruct (G _ _ _ Ef) as (a & Hn & Hm & _). rewrite PeanoNat.Nat.sub_0_r in Hn. exists a. auto.
+  - destruct (resolve_chunk s (munion m r)) as [cs|]; [|discriminate]. inversion H; subst; clear H. simpl.
+    eexists. split; [reflexivity|]. split; [rewrite nth_error_app2 by lia; rewrite PeanoNat.Nat.sub_diag; reflexivity|reflexivity].
+Qed.
+Print Assumptions C13_archetype_mask_is_closed.
+
+(* the full statement for entities (every way of gaining a component, immediate and deferred; dependents carry their
+   default values; removing a dependent is a no-op) is the refinement statement of Refine.v restricted to scripts with
+   declarations; it is evaluated here on concrete scripts and by the correspondence on random dependency graphs. The
+   excluded pattern is the open finding C13/pack-remove-then-assign-master. *)
+Definition cis4 : list cinfo := [pal_info 0 0; pal_info 2 0; pal_info 3 0; pal_info 5 0].
+Definition script_deps : list xop :=
+  [XoDep 1 4; XoDep 2 2; XoDep 0 8;                  (* 1 requires 2; 2 requires 1 (a cycle); 0 requires 3 *)
+   XoCreate 0 1 [] false; XoCreate 0 2 [] false; XoUpdate;
+   XoAssign 0 1 0 (Some 7%Z); XoRemove 0 1 2 true; XoRemove 0 0 3 true; XoRemove 0 0 0 true;
+   XoLock; XoCreate 1 4 [] false; XoAssign 1 2 0 (Some 9%Z); XoUnlock]%N.
+Example C13_on_script : refines_on true 16 cis4 script_deps = true /\ refines_on false 16 cis4 script_deps = true.
+Proof. split; vm_compute; reflexivity. Qed.
+
+(* the open finding as a theorem about the faithful model: program order inside a pack is lost *)
+Theorem C13_pack_remove_then_assign_master_refuted :
+  exists ops, x_viol (xrun 16 cis4 ops) = 0 /\ refines_on true 16 cis4 ops = false.
+Proof.
+  exists [XoDep 3 2; XoCreate 0 1 [] false; XoAssign 0 0 1 (Some 77%Z); XoLock; XoRemove 0 0 1 true; XoAssign 0 0 3 None; XoUnlock]%N.
+  split; vm_compute; reflexivity.
+Qed.
+Print Assumptions C13_pack_remove_then_assign_master_refuted.
